@@ -38,7 +38,7 @@ CONSTANTS
   THOROUGH = {thorough}
   GEN = {gen}
   PaySizes = {sizes}
-INVARIANTS InvNoSilentTruncation InvSizeAnnounced InvClosedForm InvSelfCanonical Emit
+INVARIANTS Emit InvNoSilentTruncation InvSizeAnnounced InvClosedForm InvSelfCanonical
 CHECK_DEADLOCK FALSE
 """
 SIZES = "{0, 1, 2, 3, 7, 8, 9, 1231, 1232, 1233, 65527, 65528, 65535, 65536, 131072}"
@@ -115,9 +115,10 @@ def run(c):
 
     # ---- 1. TLC: design-level invariants + generation -----------------------------------------
     r = c.tlc(SD, "MC_WireFormat", cfg=cfg(c, "mc_gen.cfg", MC_TMPL.format(
-        fixed="TRUE", thorough="TRUE" if thorough else "FALSE", gen="TRUE", sizes=SIZES_T if thorough else SIZES)), timeout=3000)
-    for inv in r.violated:
-        c.violation("spec:%s" % inv, "design-level: invariant %s violated on MC_WireFormat; see %s" % (inv, r.out_path), {"tlc_out": r.out_path})
+        fixed="TRUE", thorough="TRUE" if thorough else "FALSE", gen="TRUE", sizes=SIZES_T if thorough else SIZES)), timeout=3000,
+        extra=["-continue"])     # keep generating when a design-level invariant fails on some model
+    for inv in sorted(set(r.violated)):
+        c.violation("spec:%s" % inv, "design-level: invariant %s violated on MC_WireFormat (the I-layer transcription of wire_valid accepts a model the P-layer calls not representable, or the reference format is inconsistent); see %s" % (inv, r.out_path), {"tlc_out": r.out_path})
     if r.ok:
         c.require_coverage(r, ["Next"])
     cases = c.printed_json(r, "CASE")
@@ -168,9 +169,12 @@ def run(c):
                 c.cov["drift"] += 1
         for p in res["pv"]:
             c.violation(p["key"], p["what"] + " [model %s]" % cls, {"case": case, "real": {k: v for k, v in res.items() if k != "pv"}})
-    for need in ("rep", "unrep", "accepted", "rejected", "encoded_raw", "encoded_udp", "encoded_scmp"):
+    for need in ("rep", "unrep"):     # generator-side vacuity (the spec decides these)
         if stats[need] == 0:
-            c.fail_tool("vacuous replay: no case in class %s" % need)
+            c.fail_tool("vacuous generation: no model in class %s" % need)
+    for need in ("accepted", "rejected", "encoded_raw", "encoded_udp", "encoded_scmp"):   # code-side: report, never a tool failure
+        if stats[need] == 0:
+            c.drift("no replayed model in class %s (the encoder under test %s everything of that kind)" % (need, "accepted" if need == "rejected" else "rejected"))
     c.cov["replayed"] = len(cases)
     c.cov["evaluations"] = len(cases)
     c.cov["distinct_nontrivial"] = len(nontriv)
@@ -201,14 +205,31 @@ def run(c):
             c.violation("Trace:%s:decoder-panic" % e["level"], "decoder panicked on %d bytes: %s" % (len(b), e.get("msg")), {"event": e})
             continue
         reg = region(b, off) if verdict != "reenc-rejected" else "-"
+        if verdict == "reenc-differs" and len(b) >= 12:
+            # name the first differing FIELD: the checksum differs whenever anything after it does
+            hdr = b[5] * 4
+            cks = {hdr + 2, hdr + 3} if e["level"] == "scmp" else {hdr + 6, hdr + 7} if e["level"] == "udp" else set()
+            r2 = e["reenc"]
+            diffs = [k for k in range(min(len(b), len(r2))) if b[k] != r2[k] and k not in cks]
+            if diffs:
+                off = diffs[0]
+                reg = region(b, off)
+                t = b[hdr] if e["level"] == "scmp" and len(b) > hdr else None
+                rel = off - hdr
+                if (t in (5, 6) and 12 <= rel < 18) or (t == 6 and 20 <= rel < 26) or (t == 131 and 16 <= rel < 22):
+                    reg = "scmp-interface-id-above-16-bits"
+            elif len(b) == len(r2):
+                reg = "checksum-only"
         what = {"reenc-rejected": "a canonical encoding the decoder accepted cannot be re-encoded (%s)" % e.get("reenc_err"),
                 "reenc-differs": "a canonical encoding the decoder accepted re-encodes to different bytes, first at offset %d (%s): %s -> %s" % (
                     off, reg, b[off:off + 8], e["reenc"][off:off + 8]),
                 "spec-differs": "the decoded model of a canonical encoding is not the model the independent decoder reads: its reference encoding differs at offset %d (%s)" % (off, reg),
                 }[verdict]
         c.violation("Trace:%s:%s:%s" % (e["level"], verdict, reg), what + " [%s string, %d bytes]" % (e.get("src"), len(b)), {"event": e})
+    if rs.get("strings", 0) == 0:
+        c.fail_tool("record driver produced no byte strings")
     if ncanon == 0 or rs.get("accepted_udp", 0) == 0 or rs.get("accepted_scmp", 0) == 0 or rs.get("accepted_src_mutated", 0) == 0:
-        c.fail_tool("vacuous trace validation: canonical=%d accepted=%s" % (ncanon, rs))
+        c.drift("trace validation is (partly) vacuous on this tree: canonical=%d accepted=%s" % (ncanon, rs))
     c.cov["traces_validated_against_impl"] = nev
     c.cov["evaluations"] += nev
     c.cov["distinct_nontrivial"] += sum(rs.get("accepted_src_" + k, 0) for k in ("mutated", "shaped", "random"))
